@@ -12,7 +12,8 @@ def main():
     chk.unit(FILE, 'ray_quad', ray.QUAD, 'math', 'real', check_arith=False)
     chk.unit(FILE, 'ray_sphere', ray.QUAD, 'math', 'real', check_arith=False)
     chk.unit(FILE, 'ray_eliminate', ray.ELIMC, 'math', 'fp')
+    chk.unit(FILE, 'ray_plane', ray.PLANE, 'math', 'real', check_arith=False)
     chk.assumptions |= {'per-geom ray routines are pure functions of the geom index (ghost function); mj_ray is proved for normal == NULL',
-                        'ray_quad / ray_sphere over the reals'}
-    chk.out_of_reach += ['capsule / ellipsoid / cylinder / box / mesh / hfield / SDF ray routines', 'mj_multiRay (spherical-angle pruning), mju_rayTree, flex and skin rays']
+                        'ray_quad / ray_sphere / ray_plane over the reals'}
+    chk.out_of_reach += ['plane: proved for normal == NULL', 'capsule / ellipsoid / cylinder / box / mesh / hfield / SDF ray routines', 'mj_multiRay (spherical-angle pruning), mju_rayTree, flex and skin rays']
     return chk.finish()
